@@ -80,7 +80,13 @@ def expected(world, cur, attr, op):
     Elem = world.classes[E[1]] if spec_elem else None
     keyed = spec_elem and E[1] == "N"
     if not present and verb != "with":
-        return None
+        # "creating the container when it is missing. A missing target raises IndexError, KeyError or ValueError": whatever is
+        # addressed in a container that does not exist yet is a missing target
+        if not args:
+            return None
+        if fam == "seq" and not isinstance(args[0], int) and (flags.get("_by_index") is True or not reftype.conforms(args[0], E, world)):
+            return "raise", (IndexError, KeyError, ValueError, TypeError)  # (an index that is no index at all)
+        return "raise", (IndexError, KeyError, ValueError)
     raw = d.get(attr)
     if fam == "map":
         content = dict(raw) if present else {}
